@@ -62,6 +62,6 @@ Verdict ==
     ELSE "ok"
 
 Init == tid \in 1..Len(Recs)
-Next == UNCHANGED tid
+Next == FALSE /\ UNCHANGED tid        \* one state per record: the verdict is printed once
 Report == PrintT(<<"VERDICT", tid, Verdict>>)
 =============================================================================
